@@ -124,6 +124,15 @@ fn cell_queries<C: Combo>(sink: &mut Sink, rng: &mut Rng, d: u8, l: &[Range<u64>
   sink.emit(&format!("q_ndmc {} {} {} {}", q, w, d, fl), &ans, !l.is_empty());
   let ans = guarded(AssertUnwindSafe(|| bits(m.coverage_percentage())));
   sink.emit(&format!("q_cov {} {} {}", q, w, fl), &ans, !l.is_empty());
+  // first / last index of the MOC (`last_index` is the exclusive end of the last range) and equality of the ranges
+  let ans = guarded(AssertUnwindSafe(|| {
+    let same_ranges_other_depth: RangeMOC<C::T, C::Q> = mk_moc(max_depth, l);
+    format!("{}|{}|{}|{}",
+      m.first_index().map(|x| x.to_u64().to_string()).unwrap_or("_".into()),
+      m.last_index().map(|x| x.to_u64().to_string()).unwrap_or("_".into()),
+      m.eq_without_depth(&same_ranges_other_depth), m.eq_without_depth(&m.complement()))
+  }));
+  sink.emit(&format!("q_fl {}", fl), &ans, !l.is_empty());
   // cells around the bounds of the MOC, at depths shallower / equal / deeper than the MOC depth
   let mut bounds: Vec<u64> = l.iter().flat_map(|r| [r.start, r.end]).collect();
   bounds.push(0);
